@@ -373,6 +373,9 @@ func (t *tbl) Call(ip *absint.Interp, site ssa.CallInstruction, args []absint.Va
 			if _, unknown := v.(*absint.Opaque); unknown {
 				panic(&absint.Undecided{Msg: "a sync.Map keyed by a value the model does not know"})
 			}
+			if tk, isTok := v.(*absint.Tok); isTok && tk.Attr["zeroed"] != nil && strings.HasPrefix(tk.ID, "alloc") && len(tk.Fields) > 0 {
+				return absint.KeyOf(v) // a struct value built by the interpreted code: equal field by field
+			}
 			return absint.Show(v)
 		}
 		switch cal.Name() {
